@@ -3,6 +3,7 @@ import vlib
 from props import common, mix, sched
 
 THM = "NextestModel.Thm.C14"
+THM_EXTRA = ["NextestModel.Thm.C14Groups"]
 GEN = []
 TRUSTED = ["model: Model/Sched, read from future-queue 0.4.0's source and corresponded against the real crate (third-party code: modelled and corresponded, not assumed)",
            "that an OS process does not outlive its future is C11's group-kill argument plus the end-to-end engine"]
